@@ -91,6 +91,11 @@ struct Registry {
     {
         if (live.count(reinterpret_cast<uintptr_t>(p)) == 0) {
             bad(clause, p);
+            if (g_ctx != nullptr && g_ctx->stepClass != 2) {
+                // using an object outside its lifetime during a valid call is undefined behaviour as well
+                LibPause pause;
+                g_ctx->violation("C02", std::string("memory:use-after-lifetime:") + clause, std::string(clause) + " at " + where(p));
+            }
         }
     }
 
@@ -238,7 +243,9 @@ struct TrackedT {
     ~TrackedT()
     {
         reg().on_destroy(this);
-        v = -9999;
+        // the object's last value must not survive its destruction (a volatile store: a plain one is a dead store the
+        // optimiser removes, and a copy made from the dead object would then still look right)
+        *const_cast<int volatile*>(&v) = -9999;
     }
 
     friend auto operator==(TrackedT const& a, TrackedT const& b) -> bool { return a.v == b.v; }
@@ -294,7 +301,9 @@ struct TrackedDA {
     ~TrackedDA()
     {
         reg().on_destroy(this);
-        v = -9999;
+        // the object's last value must not survive its destruction (a volatile store: a plain one is a dead store the
+        // optimiser removes, and a copy made from the dead object would then still look right)
+        *const_cast<int volatile*>(&v) = -9999;
     }
 
     friend auto operator==(TrackedDA const& a, TrackedDA const& b) -> bool { return a.v == b.v; }
